@@ -19,6 +19,8 @@ var engines = map[string]func(*engine.Ctx){
 	"C01": engine.C01,
 	"C02": engine.C02,
 	"C03": engine.C03,
+	"C04": engine.C04,
+	"C05": engine.C05,
 	"C07": engine.C07,
 	"C08": engine.C08,
 	"C09": engine.C09,
